@@ -118,7 +118,7 @@ Proof. vm_compute. repeat split; reflexivity. Qed.
     within the same channel generation - "within a round" therefore has to mean "between idle states" *)
 Definition ex_stale : list event :=
   [ EvStart; EvRERespVRV (mkv 1 0 1 (vs_of 0 0 [] []) []);
-    EvView (mkv 1 0 2 (vs_of 0 30 [] [([7], 20); ([], 10)]) []) None; EvTimer ].
+    EvView (mkv 1 0 2 (vs_of 0 30 [] [([7], 20); ([], 10)]) []) None; EvTimer; EvAnswer 0 [7] ].
 Example ex_step_stale_while_awaiting :
   let s1 := final_state (sm0 true) ex_stale in
   let s2 := fst (step s1 (EvRERespVRV (mkv 1 1 1 (vs_of 0 0 [] []) []))) in
@@ -208,8 +208,8 @@ Proof.
       * eapply A; eauto.
     + destruct (IH d H) as [A B]. split.
       * intros a x b y c E Hx Hy. destruct a as [|a0 a]; simpl in E; inversion E; subst; [congruence|eapply A; eauto].
-      * intros Hd a y c E Hy. destruct a as [|a0 a]; simpl in E; inversion E; subst; [congruence|].
-        destruct (B Hd a y c eq_refl Hy) as (z & Z1 & Z2). exists z. split; [right; exact Z1|exact Z2].
+      * intros -> a y c E Hy. destruct a as [|a0 a]; simpl in E; inversion E; subst; [congruence|].
+        destruct (B eq_refl a y c eq_refl Hy) as (z & Z1 & Z2). exists z. split; [right; exact Z1|exact Z2].
 Qed.
 End ScanLemmas.
 
@@ -276,7 +276,7 @@ Proof.
   assert (AW : awaiting s' -> fst (scan isa d o) = true -> snd (scan isa d o) = true ->
                awaiting s /\ (forall x, In x o -> isa x = false)).
   { intros A F Sd. destruct (U1 A) as [(o' & pk & act & E)|[A0 [E|E]]].
-    - rewrite E in F, Sd. rewrite (scan_ent_last isa o' _ d eq_refl F) in Sd. discriminate Sd.
+    - rewrite E in F, Sd. rewrite (scan_ent_last isa o' (ORoundEntrance (rH (rl s')) (rR (rl s')) pk act) d eq_refl F) in Sd. discriminate Sd.
     - split; [exact A0|]. rewrite E. intros x [].
     - split; [exact A0|]. rewrite E. intros x [<-|[]]. exact isa_und. }
   destruct (filter isa o) as [|x0 l] eqn:FE.
@@ -289,22 +289,22 @@ Proof.
       destruct (AW A F Sd) as [A0 _]. exact (Iflag_await d s HI Hd A0).
     + assert (A : awaiting s') by (unfold awaiting; rewrite R'; exact I).
       destruct (AW A F Sd) as [A0 _]. exact (Iflag_await d s HI Hd A0).
-    + destruct (U2 R') as [R0|A0]; [|destruct (Iflag_await d s HI Hd A0)].
-      apply HK; [exact R0|exact R'|exact (Iflag_idle d s HI Hd R0)].
+    + destruct (U2 eq_refl) as [R0|A0]; [|destruct (Iflag_await d s HI Hd A0)].
+      apply HK; [exact R0|reflexivity|exact (Iflag_idle d s HI Hd R0)].
   - (* asked *)
     assert (X0 : In x0 o /\ isa x0 = true) by (apply filter_In; rewrite FE; left; reflexivity).
     destruct X0 as [X1 X2]. destruct (HA x0 L7 X1 X2) as (H1 & H2 & H3).
     assert (Hd : d = false).
     { destruct d; [|reflexivity]. exfalso. destruct H1 as [R0|A0]; [exact (H2 R0 (Iflag_idle _ s HI eq_refl R0))|exact (Iflag_await _ s HI eq_refl A0)]. }
     subst d.
-    assert (F : fst (scan isa false o) = true) by (apply scan_one; [rewrite FE; rewrite FE in HC; exact HC|discriminate]).
+    assert (F : fst (scan isa false o) = true) by (apply scan_one; [rewrite FE; exact HC|discriminate]).
     split; [exact F|]. intros Sd.
     destruct (run s') eqn:R'; try exact I.
     + assert (A : awaiting s') by (unfold awaiting; rewrite R'; exact I).
       destruct (AW A F Sd) as [_ N]. rewrite (N x0 X1) in X2. discriminate X2.
     + assert (A : awaiting s') by (unfold awaiting; rewrite R'; exact I).
       destruct (AW A F Sd) as [_ N]. rewrite (N x0 X1) in X2. discriminate X2.
-    + exact (H3 R').
+    + exact (H3 eq_refl).
 Qed.
 
 Lemma scan_hist es : forall s d, rS (rl s) <= 7 -> Iflag d s ->
@@ -338,13 +338,13 @@ Proof.
 Qed.
 Lemma in_decide_reqs o x : In x o -> is_decide x = true -> In K_decide (reqs o).
 Proof.
-  induction o as [|y o IH]; [intros []|]. intros [<-|H] E.
+  induction o as [|y o IH]; [intros []|]. intros [->|H] E.
   - destruct x; try discriminate E. left. reflexivity.
   - unfold reqs in *. simpl. apply in_or_app. right. apply IH; assumption.
 Qed.
 Lemma in_choose_reqs o x : In x o -> is_choose x = true -> In K_choose (reqs o).
 Proof.
-  induction o as [|y o IH]; [intros []|]. intros [<-|H] E.
+  induction o as [|y o IH]; [intros []|]. intros [->|H] E.
   - destruct x; try discriminate E. left. reflexivity.
   - unfold reqs in *. simpl. apply in_or_app. right. apply IH; assumption.
 Qed.
@@ -438,6 +438,7 @@ Qed.
 Definition w_dec : list event :=
   [ EvStart; EvRERespVRV (mkv 1 0 1 (vs_of 0 0 [] []) []);
     EvView (mkv 1 0 2 (vs_of 30 0 [([7], 20); ([], 10)] []) [gph 7]) None;
+    EvAnswer 1 [];
     EvTimer;
     EvView (mkv 1 0 3 (vs_of 30 0 [([7], 20); ([], 10)] []) [gph 7]) (Some (1, 1));
     EvAnswer 1 [];
